@@ -6,6 +6,7 @@ import (
 	"errors"
 	"fmt"
 	"io"
+	"strings"
 	"time"
 
 	kafka "github.com/segmentio/kafka-go"
@@ -107,17 +108,17 @@ func genLog(t *Tape, c *Cluster, p *Partition, o LayoutOpts, start int64, nBatch
 }
 
 type readerState struct {
-	s        *Sim
-	cl       *Cluster
-	p        *Partition
-	r        *kafka.Reader
-	pos      int64 // next expected offset (absolute); -1 = relative start pending
-	lo       int64 // for a pending relative start: LEO/LogStart when the position was set
-	relKind  int64 // kafka.FirstOffset / kafka.LastOffset while pending
-	delivered int
-	removed  map[int64]time.Duration // offsets removed by retention -> when
+	s           *Sim
+	cl          *Cluster
+	p           *Partition
+	r           *kafka.Reader
+	pos         int64 // next expected offset (absolute); -1 = relative start pending
+	lo          int64 // for a pending relative start: LEO/LogStart when the position was set
+	relKind     int64 // kafka.FirstOffset / kafka.LastOffset while pending
+	delivered   int
+	removed     map[int64]time.Duration // offsets removed by retention -> when
 	faultsUntil time.Duration
-	timing   bool
+	timing      bool
 }
 
 // storedAtOrAfter returns the stored record with the smallest offset >= off
@@ -471,7 +472,7 @@ func readerScenario(s *Sim, params map[string]string) {
 				s.Count("ops")
 			} else if ctxErr != nil {
 				if more {
-					s.Fail("C02", "R3-stuck", "no message within 30 simulated seconds although records at or after offset %d are stored (log end %d), faults stopped at %v, now %v; %s%s", tail, p.LEO, st.faultsUntil, s.Now(), st.lastFetchDiag(), st.recentEmptyMarker())
+					s.Fail("C02", "R3-stuck", "no message within 30 simulated seconds although records at or after offset %d are stored (log end %d), faults stopped at %v, now %v; %s%s", tail, p.LEO, st.faultsUntil, s.Now(), st.lastFetchDiag(), st.stuckCause())
 				}
 				if !more {
 					drained = true
@@ -605,6 +606,18 @@ func (st *readerState) layoutDiag(off int64) string {
 		if b.Magic == 2 && len(b.Records) == 0 && off >= b.BaseOffset && off <= b.BaseOffset+int64(b.LastOffsetDelta) {
 			out += "[delivered offset lies inside this empty retained batch] "
 		}
+	}
+	return out
+}
+
+// stuckCause ties a reader that keeps requesting an offset below the log
+// start to what moved its position there: the fetch before the last backward
+// step of the fetch offset (the marker of the recent-responses window is not
+// enough: the loop itself fills that window with error responses).
+func (st *readerState) stuckCause() string {
+	out := st.recentEmptyMarker()
+	if strings.Contains(st.lastFetchDiag(), "fetch offset below log start keeps being requested") {
+		out += " [how the position got there: " + st.rewindDiag() + "]"
 	}
 	return out
 }
